@@ -74,7 +74,7 @@ def shard(task):
 
 
 def run(ctx):
-    n = ctx.pick(120, 4000)
+    n = ctx.pick(500, 4000)
     ctx.pmap(shard, [(ctx.shard_seed(i), n) for i in range(16)])
 
 
